@@ -47,13 +47,13 @@ Stateful == deco.rerun # {}
 InnerCase == [ev |-> "case", id |-> "inner", mode |-> "pregel", nodes |-> <<"s1", "s2">>,
               edges |-> << <<"start", "s1", "cd">>, <<"s1", "s2", "cd">>, <<"s2", "end", "cd">> >>, branches |-> <<>>, max |-> 0,
               before |-> IF InnerBefore THEN <<"s2">> ELSE <<>>, after |-> IF InnerAfter THEN <<"s1">> ELSE <<>>, rerun |-> <<>>,
-              state |-> FALSE, fail |-> <<>>, noid |-> FALSE, subs |-> <<>>, post |-> FALSE, hmod |-> FALSE, echo |-> <<>>, x0 |-> "x"]
+              state |-> FALSE, fail |-> <<>>, noid |-> FALSE, subs |-> <<>>, post |-> FALSE, hmod |-> FALSE, echo |-> <<>>, x0 |-> "x", bare |-> <<>>, lower |-> ""]
 HasSub == SubNode \in Nodes
 CaseEv == [ev |-> "case", id |-> "m", noid |-> FALSE, subs |-> IF HasSub THEN <<[node |-> SubNode, g |-> InnerCase]>> ELSE <<>>,
            mode |-> Mode, nodes |-> Scenario.nodes, edges |-> Scenario.edges,
            branches |-> [i \in 1..Len(brs) |-> [from |-> brs[i].from, ends |-> NameSeq(brs[i].ends), multi |-> brs[i].multi, data |-> Mode # "wf"]],
            max |-> deco.max, before |-> NameSeq(deco.before), after |-> NameSeq(deco.after), rerun |-> NameSeq(deco.rerun),
-           state |-> Stateful, fail |-> deco.fail, post |-> FALSE, hmod |-> FALSE, echo |-> <<>>, x0 |-> "x"]
+           state |-> Stateful, fail |-> deco.fail, post |-> FALSE, hmod |-> FALSE, echo |-> <<>>, x0 |-> "x", bare |-> <<>>, lower |-> ""]
 MaxStepsImpl == IF deco.max = 0 THEN N + 10 ELSE deco.max      \* graph.go: len(chanSubscribeTo) + 10
 
 \* ------------------------------------------------------------------ static structure, as compile() derives it
